@@ -197,9 +197,10 @@ def _ops():
     add("sort(k)", lambda l: l.replace(molecules=l.molecules.sort("k")), lambda u: ("seq", tuple(sorted(u, key=lambda x: KEY[x]))))
     add("sort(k,desc)", lambda l: l.replace(molecules=l.molecules.sort("k", descending=True)), lambda u: ("seq", tuple(sorted(u, key=lambda x: -KEY[x]))))
     add("sort(k2)", lambda l: l.replace(molecules=l.molecules.sort("k2")), lambda u: ("sorted-by", KEY2, frozenset(u)))
-    for n in (2, 3):
+    for n in (0, 1, 2, 3, 7):  # none, one, some, and more than there are
         add(f"head({n})", lambda l, n=n: l.head(n), lambda u, n=n: ("seq", tuple(u[:n])))
-        add(f"tail({n})", lambda l, n=n: l.tail(n), lambda u, n=n: ("seq", tuple(u[-n:])))
+        add(f"tail({n})", lambda l, n=n: l.tail(n), lambda u, n=n: ("seq", tuple(u[len(u) - n:]) if n < len(u) else tuple(u)))
+    for n in (1, 2, 3):
         for seed in (0, 1):
             add(f"sample({n},{seed})", lambda l, n=n, seed=seed: l.sample(n, seed=seed), lambda u, n=n: ("subset", n, frozenset(u)), lambda u, n=n: len(u) >= n)
     add("copy", lambda l: l.copy(), lambda u: ("seq", tuple(u)))
